@@ -5,106 +5,125 @@
 (* transport.rs (process_rx: only when the slot is empty; decode ->        *)
 (* Session::post_recv: match an exchange by (exchange id, role) / open a   *)
 (* responder exchange for an initiator message / NoExchange; accept        *)
-(* timeout; orphan sweep; dropped-exchange closer) and transport/          *)
-(* exchange.rs (accept, recv by the owner, drop).  One secure session,     *)
-(* responder-role exchanges ExIds on our side, a pool of handlers with a   *)
-(* fixed policy per exchange id:                                           *)
-(*   "reply"  accept, receive, answer (the answer acknowledges), close     *)
-(*   "drop"   accept, receive, drop the exchange without answering         *)
-(*   "hold"   accept, receive, sit on the exchange for a while, then close *)
-(* The peer may send any (exchange id, initiator flag, reliable flag).     *)
+(* timeout; orphan sweep; dropped-exchange closer, which closes the whole  *)
+(* session when the dropped exchange still has a retransmission pending)   *)
+(* and transport/exchange.rs (accept, recv by the owner, drop).            *)
+(* Several secure sessions Sess; the peers choose the exchange ids, so the *)
+(* same id may be live on two sessions.  A pool of handlers with a fixed   *)
+(* policy per exchange id:                                                 *)
+(*   "reply"   accept, receive, answer (the answer acknowledges), close    *)
+(*   "drop"    accept, receive, drop the exchange without answering        *)
+(*   "hold"    accept, receive, keep receiving on the exchange for a       *)
+(*             while, then drop it                                         *)
+(*   "relDrop" accept, receive, answer reliably and drop the exchange at   *)
+(*             once (the answer is still unacknowledged)                   *)
+(* The peer may send any (session, exchange id, initiator, reliable).      *)
 (***************************************************************************)
 EXTENDS Integers, Sequences, FiniteSets, TLC, Json
-CONSTANTS ExIds, Handlers, MaxPkts, Policies
+CONSTANTS Sess, ExIds, Handlers, MaxPkts, Policies
 
-NONE == [ex |-> 0, init |-> FALSE, old |-> FALSE]
+Keys == Sess \X ExIds
+NONE == [s |-> 0, ex |-> 0, old |-> FALSE]
 VARIABLES rx,        \* message waiting in the slot, or NONE
-          exch,      \* ExIds -> "absent" | "pending" | "owned" | "dropped"
-          owner,     \* ExIds -> handler or 0
+          exch,      \* Keys -> "absent" | "pending" | "owned" | "dropped" | "droppedRetrans"
+          owner,     \* Keys -> handler or 0
           hstate,    \* Handlers -> "idle" | "busy"
-          ackp,      \* ExIds -> an acknowledgement is owed on that exchange
-          policy,    \* ExIds -> what the handler does with that exchange
-          sessionUp, inbound,
-          delivered, \* set of <<exchange that got it, exchange it was for>>
-          opened,    \* exchange ids for which an initiator message arrived
+          ackp,      \* Keys -> an acknowledgement is owed on that exchange
+          policy,    \* ExIds -> what the handler does with an exchange of that id
+          up,        \* Sess -> the session exists
+          inbound,
+          delivered, \* set of <<key that got it, key it was for>>
+          opened,    \* keys for which an initiator message arrived
           h
-vars == <<rx, exch, owner, hstate, ackp, policy, sessionUp, inbound, delivered, opened, h>>
-view == <<rx, exch, owner, hstate, ackp, policy, sessionUp, inbound, delivered, opened>>
+vars == <<rx, exch, owner, hstate, ackp, policy, up, inbound, delivered, opened, h>>
+view == <<rx, exch, owner, hstate, ackp, policy, up, inbound, delivered, opened>>
 
-Init == /\ rx = NONE /\ exch = [e \in ExIds |-> "absent"] /\ owner = [e \in ExIds |-> 0]
-        /\ hstate = [x \in Handlers |-> "idle"] /\ ackp = [e \in ExIds |-> FALSE]
+Init == /\ rx = NONE /\ exch = [k \in Keys |-> "absent"] /\ owner = [k \in Keys |-> 0]
+        /\ hstate = [x \in Handlers |-> "idle"] /\ ackp = [k \in Keys |-> FALSE]
         /\ policy \in [ExIds -> Policies]
-        /\ sessionUp = TRUE /\ inbound = 0 /\ delivered = {} /\ opened = {}
+        /\ up = [s \in Sess |-> TRUE] /\ inbound = 0 /\ delivered = {} /\ opened = {}
         /\ h = <<[op |-> "Policy", p |-> policy]>>
 
 \* process_rx (only with an empty slot) + decode_packet + Session::post_recv
-RecvPkt(e, init, rel) ==
+RecvPkt(s, e, init, rel) ==
+  LET k == <<s, e>> IN
   /\ rx = NONE /\ inbound < MaxPkts /\ inbound' = inbound + 1
-  /\ h' = Append(h, [op |-> "Pkt", e |-> e, init |-> init, rel |-> rel])
-  /\ IF ~sessionUp THEN UNCHANGED <<rx, exch, ackp, opened>>                     \* NoSession: dropped (SessionNotFound answer)
-     ELSE IF exch[e] # "absent" /\ init
-          THEN /\ rx' = [ex |-> e, init |-> init, old |-> FALSE]                  \* next message of a responder exchange
-               /\ ackp' = [ackp EXCEPT ![e] = @ \/ rel] /\ UNCHANGED <<exch, opened>>
-     ELSE IF exch[e] = "absent" /\ init
-          THEN /\ exch' = [exch EXCEPT ![e] = "pending"]                           \* opens a new responder exchange
-               /\ rx' = [ex |-> e, init |-> init, old |-> FALSE]
-               /\ ackp' = [ackp EXCEPT ![e] = rel] /\ opened' = opened \cup {e}
-     ELSE UNCHANGED <<rx, exch, ackp, opened>>                                    \* answer to an unknown exchange: dropped
-  /\ UNCHANGED <<owner, hstate, policy, sessionUp, delivered>>
+  /\ h' = Append(h, [op |-> "Pkt", s |-> s, e |-> e, init |-> init, rel |-> rel])
+  /\ IF ~up[s] THEN UNCHANGED <<rx, exch, ackp, opened>>                          \* NoSession: dropped (SessionNotFound answer)
+     ELSE IF exch[k] # "absent" /\ init
+          THEN /\ rx' = [s |-> s, ex |-> e, old |-> FALSE]                         \* next message of a responder exchange
+               /\ ackp' = [ackp EXCEPT ![k] = @ \/ rel] /\ UNCHANGED <<exch, opened>>
+     ELSE IF exch[k] = "absent" /\ init
+          THEN /\ exch' = [exch EXCEPT ![k] = "pending"]                            \* opens a new responder exchange
+               /\ rx' = [s |-> s, ex |-> e, old |-> FALSE]
+               /\ ackp' = [ackp EXCEPT ![k] = rel] /\ opened' = opened \cup {k}
+     ELSE UNCHANGED <<rx, exch, ackp, opened>>                                     \* answer to an unknown exchange: dropped
+  /\ UNCHANGED <<owner, hstate, policy, up, delivered>>
+\* a datagram for a session the device never had
+StrayPkt == /\ rx = NONE /\ inbound < MaxPkts /\ inbound' = inbound + 1
+            /\ h' = Append(h, [op |-> "Stray"])
+            /\ UNCHANGED <<rx, exch, owner, hstate, ackp, policy, up, delivered, opened>>
 
-Accept(x) == /\ hstate[x] = "idle" /\ rx # NONE /\ exch[rx.ex] = "pending"
-             /\ exch' = [exch EXCEPT ![rx.ex] = "owned"] /\ owner' = [owner EXCEPT ![rx.ex] = x]
+RxKey == <<rx.s, rx.ex>>
+Accept(x) == /\ hstate[x] = "idle" /\ rx # NONE /\ up[rx.s] /\ exch[RxKey] = "pending"
+             /\ exch' = [exch EXCEPT ![RxKey] = "owned"] /\ owner' = [owner EXCEPT ![RxKey] = x]
              /\ hstate' = [hstate EXCEPT ![x] = "busy"]
-             /\ UNCHANGED <<rx, ackp, policy, sessionUp, inbound, delivered, opened, h>>
+             /\ UNCHANGED <<rx, ackp, policy, up, inbound, delivered, opened, h>>
 
-OwnerRecv(e) == /\ exch[e] = "owned" /\ rx # NONE /\ rx.ex = e
-                /\ delivered' = delivered \cup {<<e, rx.ex>>} /\ rx' = NONE
-                /\ UNCHANGED <<exch, owner, hstate, ackp, policy, sessionUp, inbound, opened, h>>
+\* ExchangeId::recv: the owner takes the message that is for its session and its exchange
+OwnerRecv(k) == /\ exch[k] = "owned" /\ rx # NONE /\ RxKey = k
+                /\ delivered' = delivered \cup {<<k, RxKey>>} /\ rx' = NONE
+                /\ UNCHANGED <<exch, owner, hstate, ackp, policy, up, inbound, opened, h>>
 
 \* the owner is done with the exchange, as its policy says
-OwnerFinish(e) == /\ exch[e] = "owned" /\ (rx = NONE \/ rx.ex # e)
-                  /\ IF policy[e] = "reply"
-                     THEN /\ ackp' = [ackp EXCEPT ![e] = FALSE] /\ exch' = [exch EXCEPT ![e] = "absent"]   \* the answer carries the ack
-                     ELSE /\ UNCHANGED ackp /\ exch' = [exch EXCEPT ![e] = IF ackp[e] THEN "dropped" ELSE "absent"]   \* Exchange::drop
-                  /\ hstate' = [hstate EXCEPT ![owner[e]] = "idle"] /\ owner' = [owner EXCEPT ![e] = 0]
-                  /\ UNCHANGED <<rx, policy, sessionUp, inbound, delivered, opened, h>>
+OwnerFinish(k) ==
+  /\ exch[k] = "owned" /\ (rx = NONE \/ RxKey # k)
+  /\ CASE policy[k[2]] = "reply" -> /\ ackp' = [ackp EXCEPT ![k] = FALSE] /\ exch' = [exch EXCEPT ![k] = "absent"]   \* the answer carries the ack
+       [] policy[k[2]] = "relDrop" -> /\ ackp' = [ackp EXCEPT ![k] = FALSE] /\ exch' = [exch EXCEPT ![k] = "droppedRetrans"]
+       [] OTHER -> /\ UNCHANGED ackp /\ exch' = [exch EXCEPT ![k] = IF ackp[k] THEN "dropped" ELSE "absent"]   \* Exchange::drop
+  /\ hstate' = [hstate EXCEPT ![owner[k]] = "idle"] /\ owner' = [owner EXCEPT ![k] = 0]
+  /\ UNCHANGED <<rx, policy, up, inbound, delivered, opened, h>>
 
 Age == /\ rx # NONE /\ ~rx.old /\ rx' = [rx EXCEPT !.old = TRUE]
-       /\ UNCHANGED <<exch, owner, hstate, ackp, policy, sessionUp, inbound, delivered, opened, h>>
+       /\ UNCHANGED <<exch, owner, hstate, ackp, policy, up, inbound, delivered, opened, h>>
 \* nobody accepted within ACCEPT_TIMEOUT_MS: the exchange is marked dropped and the slot is cleared
-AcceptTimeout == /\ rx # NONE /\ rx.old /\ sessionUp /\ exch[rx.ex] = "pending"
-                 /\ exch' = [exch EXCEPT ![rx.ex] = "dropped"] /\ rx' = NONE
-                 /\ UNCHANGED <<owner, hstate, ackp, policy, sessionUp, inbound, delivered, opened, h>>
+AcceptTimeout == /\ rx # NONE /\ rx.old /\ up[rx.s] /\ exch[RxKey] = "pending"
+                 /\ exch' = [exch EXCEPT ![RxKey] = "dropped"] /\ rx' = NONE
+                 /\ UNCHANGED <<owner, hstate, ackp, policy, up, inbound, delivered, opened, h>>
 \* a message whose session / exchange vanished, or whose owner dropped the exchange
-OrphanSweep == /\ rx # NONE /\ (~sessionUp \/ exch[rx.ex] \in {"absent", "dropped"})
-               /\ rx' = NONE /\ UNCHANGED <<exch, owner, hstate, ackp, policy, sessionUp, inbound, delivered, opened, h>>
-\* dropped exchanges are closed: a stand-alone ack if one is owed, then the slot is freed
-DroppedCloser == \E e \in ExIds : /\ exch[e] = "dropped"
-                                  /\ exch' = [exch EXCEPT ![e] = "absent"] /\ ackp' = [ackp EXCEPT ![e] = FALSE]
-                                  /\ UNCHANGED <<rx, owner, hstate, policy, sessionUp, inbound, delivered, opened, h>>
-SessionGone == /\ sessionUp /\ sessionUp' = FALSE
-               /\ exch' = [e \in ExIds |-> "absent"] /\ ackp' = [e \in ExIds |-> FALSE]
-               /\ hstate' = [x \in Handlers |-> "idle"] /\ owner' = [e \in ExIds |-> 0]
-               /\ h' = Append(h, [op |-> "CloseSession"])
-               /\ UNCHANGED <<rx, policy, inbound, delivered, opened>>
+OrphanSweep == /\ rx # NONE /\ (~up[rx.s] \/ exch[RxKey] \in {"absent", "dropped", "droppedRetrans"})
+               /\ rx' = NONE /\ UNCHANGED <<exch, owner, hstate, ackp, policy, up, inbound, delivered, opened, h>>
+\* dropped exchanges are closed: a stand-alone ack if one is owed, then the slot is freed ...
+DroppedCloser == \E k \in Keys : /\ exch[k] = "dropped"
+                                 /\ exch' = [exch EXCEPT ![k] = "absent"] /\ ackp' = [ackp EXCEPT ![k] = FALSE]
+                                 /\ UNCHANGED <<rx, owner, hstate, policy, up, inbound, delivered, opened, h>>
+\* ... or, with a retransmission still pending, the whole session is closed (CloseSession) - whatever else is on it
+SessionCloser == \E k \in Keys : /\ exch[k] = "droppedRetrans"
+                                 /\ up' = [up EXCEPT ![k[1]] = FALSE]
+                                 /\ exch' = [j \in Keys |-> IF j[1] = k[1] THEN "absent" ELSE exch[j]]
+                                 /\ ackp' = [j \in Keys |-> IF j[1] = k[1] THEN FALSE ELSE ackp[j]]
+                                 /\ hstate' = [x \in Handlers |-> IF \E j \in Keys : j[1] = k[1] /\ owner[j] = x THEN "idle" ELSE hstate[x]]
+                                 /\ owner' = [j \in Keys |-> IF j[1] = k[1] THEN 0 ELSE owner[j]]
+                                 /\ UNCHANGED <<rx, policy, inbound, delivered, opened, h>>
 
-Next == \/ \E e \in ExIds, i \in BOOLEAN, r \in BOOLEAN : RecvPkt(e, i, r)
+Next == \/ \E s \in Sess, e \in ExIds, i \in BOOLEAN, r \in BOOLEAN : RecvPkt(s, e, i, r)
+        \/ StrayPkt
         \/ \E x \in Handlers : Accept(x)
-        \/ \E e \in ExIds : OwnerRecv(e) \/ OwnerFinish(e)
-        \/ Age \/ AcceptTimeout \/ OrphanSweep \/ DroppedCloser \/ SessionGone
+        \/ \E k \in Keys : OwnerRecv(k) \/ OwnerFinish(k)
+        \/ Age \/ AcceptTimeout \/ OrphanSweep \/ DroppedCloser \/ SessionCloser
 
-Fair == /\ WF_vars(Age) /\ WF_vars(AcceptTimeout) /\ WF_vars(OrphanSweep) /\ WF_vars(DroppedCloser)
-        /\ \A e \in ExIds : WF_vars(OwnerRecv(e)) /\ SF_vars(OwnerFinish(e))
+Fair == /\ WF_vars(Age) /\ WF_vars(AcceptTimeout) /\ WF_vars(OrphanSweep) /\ WF_vars(DroppedCloser) /\ WF_vars(SessionCloser)
+        /\ \A k \in Keys : WF_vars(OwnerRecv(k)) /\ SF_vars(OwnerFinish(k))
 Spec == Init /\ [][Next]_vars /\ Fair
 
-\* RightExchangeOnly: a message reaches only the exchange it was sent on
+\* RightExchangeOnly: a message reaches only the exchange (session, id) it was sent on
 RightExchangeOnly == \A d \in delivered : d[1] = d[2]
-\* OpensOnlyIfAllowed: exchanges exist only for ids an initiator message arrived for
-OpensOnlyIfAllowed == \A e \in ExIds : exch[e] # "absent" => e \in opened
+\* OpensOnlyIfAllowed: exchanges exist only for keys an initiator message arrived for
+OpensOnlyIfAllowed == \A k \in Keys : exch[k] # "absent" => k \in opened
 \* NoWedge: the slot always becomes free again
 SlotEventuallyFree == (rx # NONE) ~> (rx = NONE)
 \* UnclaimedIsDiscarded / no leak: once the peer stops sending, every exchange is eventually closed
-EventuallyClean == <>[](inbound = MaxPkts => (\A e \in ExIds : exch[e] = "absent") /\ rx = NONE)
+EventuallyClean == <>[](inbound = MaxPkts => (\A k \in Keys : exch[k] = "absent") /\ rx = NONE)
 
 EmitAtEnd == inbound = MaxPkts => PrintT(<<"REPLAY", ToJson(h)>>)
 =============================================================================
